@@ -219,9 +219,8 @@ inline Made xformed(Ctx& g, Made const& in, Xf const& x)
     m.bounded = in.bounded;
     m.c = up(x, in.c);
     m.r = in.r;
-    m.f10 = in.f10;
+    m.known = in.known;
     m.has_ell = in.has_ell;
-    m.f11 = in.f11;
     m.ells = in.ells;
     for (auto& e : m.ells)
     {
@@ -282,7 +281,7 @@ inline Made prim_from(Ctx& g, int kind, std::vector<double> const& q_in)
             ++g.feat.n_small_ell;
     }
     Made m;
-    m.f11 = small_ell;
+    m.known = small_ell ? unsigned(KF11) : 0u;
     m.has_ell = (kind == P_ELL);
     if (kind == P_ELL)
     {
@@ -346,7 +345,8 @@ inline Made prim_from(Ctx& g, int kind, std::vector<double> const& q_in)
                 oi::Parallelepiped{Real3{q[0], q[1], q[2]}, Turn{q[3]},
                                    Turn{q[4]}, Turn{q[5]}});
             m.orc = mk(K::para, lp);
-            m.f10 = (q[3] != 0 || q[4] != 0);
+            if (q[3] != 0 || q[4] != 0)
+                m.known |= KF10;
             // generous ball: |x| <= hx + hy tan a + hz tan t, etc.
             LD ta = fabsl(tanl(2 * kPi * lp[3])), tt = tanl(2 * kPi * lp[4]);
             LD ex = lp[0] + lp[1] * ta + lp[2] * tt * (1 + ta);
